@@ -19,6 +19,10 @@ def roundtrip(which):
     rng = np.random.default_rng(Int('seed', 0, 10 ** 6))
     io = get('prysm.io')
     H, W = int(rng.integers(1, 8)), int(rng.integers(1, 9))
+    if which in ('codev-roundtrip', 'zygo-roundtrip') and rng.random() < 0.3:
+        # larger maps whose sample count sits on either side of the text writer's line capacity (585 values): exact multiples,
+        # one more, primes beyond it, counts with no divisor near it
+        H, W = [(45, 13), (13, 45), (65, 9), (39, 30), (1, 585), (585, 1), (2, 293), (19, 31), (1, 587), (30, 39), (24, 25), (9, 130)][int(rng.integers(0, 12))]
     style = str(rng.choice(['mixed', 'positive', 'negative', 'constant', 'tiny', 'large', 'huge']))
     z = rng.standard_normal((H, W)) * 50
     if style == 'positive':
@@ -47,7 +51,8 @@ def roundtrip(which):
     elif lay == 2:
         z = np.ascontiguousarray(z.T).T
     dx = float(rng.uniform(0.01, 2.0))
-    wvl = float(rng.choice([0.6328, 0.55, 1.064]))
+    # catalogue lines and arbitrary wavelengths (as many significant digits as a float has)
+    wvl = float(rng.choice([0.6328, 0.55, 1.064])) if rng.random() < 0.5 else float(rng.uniform(0.3, 11))
     tmp = tempfile.mkdtemp(prefix='pvc_c14_')
     try:
         if which in ('zygo-roundtrip', 'zygo-truncation', 'interferogram-save-load'):
